@@ -1,5 +1,6 @@
 import Emerge.LREval
 import Emerge.Props.C18
+import Emerge.Proofs.EbnfTyped
 /-
   C11 — the syntax trees of a specification reflect the source exactly.
 
@@ -10,9 +11,15 @@ import Emerge.Props.C18
   `C18_tokens`/`C18_order` (the token callback fires once per token in source order; the production
   callbacks are a rightmost derivation in reverse) this is "the leaves reproduce the significant
   tokens and every interior node applies one rule".
-  The typed tree (ebnf/parser/ast: flattening of juxtaposition and alternation, transparent groups),
-  its round trip through printing and its agreement with the grammar emerge derives directly are
-  decided per specification by checks/c11.py against the generator's own tree — not proved.
+  The typed tree (ebnf/parser/ast): `EbnfTyped.typedAction` models all 35 evaluation actions of
+  `ast.Parse` (tied to the code by printing both trees as S-expressions on every generated
+  specification); `build` is what they do on the tree of a right-hand side (`C11_typed_actions`,
+  `rfl`).  Proved: the typed right-hand side has the atoms of the source in source order
+  (`C11_typed_order`), it has the documented meaning of the source (`C11_typed_meaning`: flattening
+  juxtapositions/alternations and dropping parentheses change nothing), and therefore the language
+  read off the typed tree is the language of the grammar `spec.Parse` derives for the same
+  right-hand side (`C11_typed_language`, via C01's `C01_eval`).  The round trip through printing is
+  decided per specification by checks/c11.py.
 -/
 namespace Emerge.Props.C11
 open Emerge Emerge.LR
@@ -167,5 +174,48 @@ theorem C11_arity (prods : List Prod) : ∀ (evs : List Event) (st st' : List No
 example : (match astEvents Inst.Tables.raw.tables.prods (parse Inst.Tables.raw.tables [13, 17, 1, 17, 0, 19, 1] none none 200).1 [] with
     | some (root :: _) => leaves root == List.range 7 && arityOK Inst.Tables.raw.tables.prods root
     | _ => false) = true := by decide +kernel
+
+/-! ### the typed tree -/
+
+open Emerge.Ebnf Emerge.EbnfTyped Emerge.Props.C01 in
+/-- **Operand order**: the typed right-hand side has the terminals, non-terminals and empty alternatives of the source,
+    left to right, in the order of the source. -/
+theorem C11_typed_order (r : Rhs) : atomsT (build r) = atoms r := build_atoms r
+
+open Emerge.Ebnf Emerge.EbnfTyped Emerge.Props.C01 in
+/-- **Meaning**: the typed right-hand side (juxtaposition and alternation flattened, parentheses dropped) has the
+    documented meaning of the right-hand side as written, for every interpretation of the non-terminals. -/
+theorem C11_typed_meaning (env : String → Lang) (r : Rhs) (w : List String) : denoteT env (build r) w ↔ denote env r w :=
+  build_denote env r w
+
+open Emerge.Ebnf Emerge.EbnfTyped Emerge.Props.C01 in
+/-- **Agreement with the derived grammar**: the language read off the typed tree of a right-hand side is the language
+    of the alternatives `spec.Parse` derives for it, in the least fixed point of any later well-formed table. -/
+theorem C11_typed_language (cfg : Cfg) (names : List (String × String)) (r : Rhs) (t : SymTab)
+    (ht : TableOk t) (hf : FreshNames cfg names t r) (t'' : SymTab) (ht'' : TableOk t'')
+    (hext : Ext (evalRhs cfg names t r).1 t'') (w : List String) :
+    denoteT (L t''.prods) (build r) w ↔ langStrings (L t''.prods) (evalRhs cfg names t r).2 w := by
+  rw [build_denote]
+  exact ((evalRhs_sound cfg names r t ht hf).2.2 t'' ht'' hext w).symm
+
+open Emerge.Ebnf Emerge.EbnfTyped Emerge.Props.C01 in
+/-- `build` is `typedAction` (the model of the evaluation function of `ast.Parse`), case by case. -/
+theorem C11_typed_actions (pd : List (String × String)) (l r : Rhs) (x y : TVal) (a : String) :
+    typedAction pd 31 [.str a] = .ok (.rhs (build (.term a))) ∧
+    typedAction pd 30 [.str a] = .ok (.rhs (build (.nonterm a))) ∧
+    typedAction pd 23 [.rhs (build l), .rhs (build r)] = .ok (.rhs (build (.cat l r))) ∧
+    typedAction pd 28 [.rhs (build l), x, .rhs (build r)] = .ok (.rhs (build (.alt l r))) ∧
+    typedAction pd 29 [.rhs (build l), x] = .ok (.rhs (build (.altEmpty l))) ∧
+    typedAction pd 24 [x, .rhs (build r), y] = .ok (.rhs (build (.op .group r))) ∧
+    typedAction pd 25 [x, .rhs (build r), y] = .ok (.rhs (build (.op .opt r))) ∧
+    typedAction pd 26 [x, .rhs (build r), y] = .ok (.rhs (build (.op .star r))) ∧
+    typedAction pd 27 [x, .rhs (build r), y] = .ok (.rhs (build (.op .plus r))) :=
+  ⟨rfl, rfl, rfl, rfl, rfl, rfl, rfl, rfl, rfl⟩
+
+open Emerge.Ebnf Emerge.EbnfTyped Emerge.Props.C01 in
+/-- Non-vacuity: `a ( b c ) d | ( x | y ) |` is built as `alt [concat [a, b, c, d], x, y, ε]`. -/
+example : build (.altEmpty (.alt (.cat (.cat (.nonterm "a") (.op .group (.cat (.nonterm "b") (.nonterm "c")))) (.nonterm "d"))
+    (.op .group (.alt (.nonterm "x") (.nonterm "y"))))) =
+    .alt [.concat [.nonterm "a", .nonterm "b", .nonterm "c", .nonterm "d"], .nonterm "x", .nonterm "y", .empty] := rfl
 
 end Emerge.Props.C11
